@@ -97,6 +97,11 @@ def run(rep, tier, seed, replay=None):
         #      ones), + the witness of C06_grid_algorithm_abs_blind_refuted on the implementation (heights 28 / 7 / 0, events reproduced)
         GA.gridalg_k(rep, 'C06', binp, seed + 6161, 1200 if escalate else 400, family=2, payload_is_broken=False)
         GA.abs_witness(rep, 'C06', binp)
+        # ---- K6 (wave 6): WHOLE TREES mixing block / flex / grid containers and leaves, every tree with a position:absolute node: the
+        #      engine C06_taffy_engine_instance is about (Model/TaffyEngine.v taffy_algo with the real dispatch / leaf and block's real absolute
+        #      routine, exact-key memo, root glue) vs TaffyTree::compute_layout_with_measure, every node's unrounded layout after every pass
+        from . import _taffytree
+        _taffytree.tree_k(rep, 'C06', binp, seed + 6262, 1500 if escalate else 300, family=2)
     for t in THEOREMS:
         rep.cov['samples'].append({'theorem': t})
     # ---- search
